@@ -296,7 +296,7 @@ func typeRelex(t ast.Type) (ok bool) {
 
 // pieces a type text is assembled from (each is a complete token or a trivia item; joined with "" or " ")
 var typeNames = []string{"INT64", "int64", "String", "bool", "a", "b", "`c d`", "`INT64`", "`ARRAY`", "x.y", "a.b.c", "`a`.`select`", "t.INT64",
-	"INT64.t", "select", "ARRAY", "STRUCT", "array", "struct", "tokenlist", "FLOAT32", "Float64", "DATE", "Timestamp", "NUMERIC", "bytes", "Json", "INTERVAL", "a.1", "a.select"}
+	"INT64.t", "date.T", "string.x.y", "`date`.x", "select", "ARRAY", "STRUCT", "array", "struct", "tokenlist", "FLOAT32", "Float64", "DATE", "Timestamp", "NUMERIC", "bytes", "Json", "INTERVAL", "a.1", "a.select"}
 
 // abstract type trees, printed in several concrete spellings
 type tnode struct {
@@ -310,7 +310,7 @@ type tfield struct {
 	typ  *tnode
 }
 
-var tLeafNames = []string{"INT64", "string", "a", "`b c`", "x.y", "`INT64`"}
+var tLeafNames = []string{"INT64", "string", "a", "`b c`", "x.y", "`INT64`", "date.T", "`date`.x"}
 var tFieldNames = []string{"", "a", "INT64", "`select`", "array_"}
 
 // enumTypes: all trees of depth ≤ d with ≤ w fields per struct over the leaf/field-name alphabets (rotated by rot)
@@ -435,6 +435,11 @@ var typeCases = []string{
 	"ARRAY<STRUCT<ARRAY<STRUCT<ARRAY<INT64>> >>>", "ARRAY<STRUCT<ARRAY<STRUCT<ARRAY<INT64> >>>>", "ARRAY<a>>.b", "STRUCT<a>>b", "ARRAY<ARRAY<a>>b>", "ARRAY<ARRAY<a>>,b>", "STRUCT<ARRAY<a>>b>", "STRUCT<ARRAY<ARRAY<a>>,b>",
 	"STRUCT<ARRAY<ARRAY<a>>, b>", "STRUCT<x ARRAY<ARRAY<a>>, b INT64>", "STRUCT<x ARRAY<STRUCT<>>, b INT64>", "STRUCT<x ARRAY<STRUCT<>>>", "STRUCT<ARRAY<ARRAY<a>> b>", "ARRAY<ARRAY<a>>.b>",
 	"tokenlist", "TOKENLIST", "interval", "float32", "FLOAT", "int", "INT32", "ENUM", "PROTO", "`a.b`", "`a`.`b`", "`a``b`", "`a\\`b`", "`a\\nb`", "`\\x41`", "``", "a.``", "é", "`a b`.`c d`",
+	// a named type whose first path component spells a scalar type (accepted since the repair of lookaheadSimpleType)
+	"date.T", "DATE.T", "string.x.y", "`date`.x", "`date`.`x`", "date.`x`", "STRUCT<a date.t, b INT64.u>", "ARRAY<string.x>", "ARRAY<ARRAY<string.x>>", "STRUCT<date.t>", "STRUCT<date date.t>",
+	"STRUCT<date.t date>", "STRUCT<date, date.t, date>", "date .T", "date. T", "date/*c*/./*c*/T", "date.", "date..T", "date.T.", "date.1", "date.select", "date.T x", "date.ARRAY<INT64>", "ARRAY<date.>",
+	"ARRAY<date.t>>", "STRUCT<a date.t>>", "ARRAY<STRUCT<a date.t>>", "bool.b", "int64.i", "float32.f", "float64.f", "timestamp.t", "numeric.n", "bytes.b", "json.j", "tokenlist.t", "interval.i",
+	"date.date", "date.date.date", "STRUCT<date date.date>", "`date`", "`date` .x", "date.T 'abc", "date 'abc", "date.\xff",
 	"STRUCT<`INT64` `INT64`>", "STRUCT<`a b` `c d`>", "STRUCT<`a b`>", "STRUCT<a `ARRAY`<INT64>>", "`ARRAY`<INT64>", "`STRUCT`<>", "ARRAY`<`INT64>", "ARRAY<INT64`>`",
 }
 
@@ -513,7 +518,7 @@ func genType(w *bufio.Writer, tier string, r *rng) {
 	if tier == "thorough" {
 		nmut, nsoup = 250000, 250000
 	}
-	soupVocab := append(append([]string{}, vocab...), "b", "`c d`", "string", "x.y", "/*c*/", "--c\n", " ", "\n", ">>>", "> >", "<<", "(", ")", "=", "select", "1", "'s'", ";", "`INT64`", "int64")
+	soupVocab := append(append([]string{}, vocab...), "b", "`c d`", "string", "x.y", "/*c*/", "--c\n", " ", "\n", ">>>", "> >", "<<", "(", ")", "=", "select", "1", "'s'", ";", "`INT64`", "int64", "date.t", "date", "`string`")
 	all := enumTypes(2, 2, tLeafNames[:3], tFieldNames[:3])
 	for i := 0; i < nmut; i++ {
 		t := all[r.intn(len(all))]
